@@ -106,6 +106,15 @@ def curated():
     # 21 a list of alternatives that is exponentially long (all derivations have the same translation; yaep_free_tree used to recurse
     #    once per alternative and crashed on a dozen tokens):  S : # n | S b S # 2
     c.append(entry("expalt", [R(S, [], 1, 1, []), R(S, [S, 2, S], 0, 0, [3])], maxlen=4, alphabet=[2], inputs=[[2] * 9, [2] * 12]))
+    # 22 the origin decides how the input may go on: the same situation with a nullable symbol after the dot is in one set with two
+    #    origins, and each origin allows another continuation (a duplicate check that forgets the origin drops one of them):
+    #    S : x A c | x y A d ; A : Y N z ; Y : y | Y y ; N : | n          x=1 y=2 z=3 c=4 d=5 n=6
+    for k, tail in enumerate(([16, 3], [3, 16], [16])):          # N before z, after z, alone at the end
+        c.append(entry("twoorig-%d" % k, [R(S, [1, A, 4], 1, 1, [2]), R(S, [1, 2, A, 5], 2, 1, [3]), R(A, [15] + tail, 3, 1, [1]),
+                                          R(15, [2], 0, 0, [1]), R(15, [15, 2], 4, 1, [1]), R(16, []), R(16, [6], 5, 1, [1])],
+                       maxlen=0, alphabet=[1, 2, 3, 4, 5, 6],
+                       inputs=[[1, 2, 2, 2] + ([3] if 3 in tail else []) + [5], [1, 2, 2, 2] + ([3] if 3 in tail else []) + [4], [1, 2, 2, 2] + ([3] if 3 in tail else []) + [5, 5],
+                               [1, 2, 2] + ([3] if 3 in tail else []) + [5], [1, 2, 2, 6] + ([3] if 3 in tail else []) + [5], [1, 2, 2, 2, 2] + ([3] if 3 in tail else []) + [4, 4]]))
     return c
 
 
@@ -480,4 +489,48 @@ def ambig_chain_family():
                               wr = rules + [dict(R(11, [101, 100 + npad]), an=len(rules) + 1, c=1, t=[1, 2])]
                               out.append({"id": "%s-w%d%s" % (e["id"], npad, where[0]), "terms": terms, "rules": wr, "maxlen": 0, "alphabet": [1, 2, 3],
                                           "inputs": ([[1, 3], [1, 2]] if shape == "head" else [[2, 1, 3], [2, 1, 2]]) + [[101, 100 + npad]]})
+    return out
+
+
+def depth_chain_family():
+    """One set predicts the same nonterminal X along unit chains of different depths, each chain followed by its own terminal:
+    S : C1 t1 | C2 t2 | C3 t3 ; Ci : ... : X ; X : x.  The level-2 context of X needs as many rounds of the fixed point as the
+    deepest chain, whatever the order of the situations; every order of the alternatives, both rule orders, depths (1,2,3) and (1,2,4)."""
+    out = []
+    for depths in ((1, 2, 3), (1, 2, 4), (2, 3, 3)):
+        nt = 20
+        chains, heads = [], []
+        for d in depths:
+            names = list(range(nt, nt + d))
+            nt += d
+            heads.append(names[0])
+            for i in range(d - 1):
+                chains.append(R(names[i], [names[i + 1]]))
+            chains.append(R(names[-1], [12]))
+        chains.append(R(12, [1]))
+        alts = [R(11, [heads[i], 2 + i]) for i in range(3)]
+        for pi, perm in enumerate(itertools.permutations(range(3))):
+            for order in (0, 1, 2):
+                body = chains if order == 0 else chains[::-1] if order == 1 else sorted(chains, key=lambda r: (r["l"] * 7919) % 13)
+                rules = [alts[i] for i in perm] + body
+                rules = [dict(r, an=i + 1, c=1, t=list(range(1, len(r["r"]) + 1))) for i, r in enumerate(rules)]
+                out.append(entry("depthchain-%s-%d-%d" % ("".join(map(str, depths)), pi, order), rules, maxlen=2, alphabet=[1, 2, 3, 4],
+                                 inputs=[[1, 2], [1, 3], [1, 4]]))
+    # chains that SHARE nonterminals (acyclic unit-rule graphs): which predicted situation is the last one of the set, and which
+    # one needs the most rounds, varies from graph to graph
+    rnd = random.Random(4711)
+    for k in range(140):
+        n = rnd.randint(4, 7)
+        nts = list(range(20, 20 + n))            # nts[i] may refer to nts[j] only for j > i; the last one derives x
+        rules = []
+        for i in range(n - 1):
+            for j in rnd.sample(range(i + 1, n), rnd.randint(1, min(2, n - 1 - i))):
+                rules.append(R(nts[i], [nts[j]]))
+        rules.append(R(nts[-1], [1]))
+        starts = rnd.sample(nts[:-1], min(3, n - 1))
+        alts = [R(11, [h, 2 + i]) for i, h in enumerate(starts)]
+        rnd.shuffle(rules)
+        allr = alts + rules
+        allr = [dict(r, an=i + 1, c=1, t=list(range(1, len(r["r"]) + 1))) for i, r in enumerate(allr)]
+        out.append(entry("chaindag-%d" % k, allr, maxlen=2, alphabet=[1, 2, 3, 4], inputs=[[1, 2 + i] for i in range(len(starts))]))
     return out
